@@ -806,6 +806,10 @@ class TextXMetaModel(DebugPrinter):
             if callback:
                 callback(other_model)
 
+        cached_before = None
+        if is_main_model and hasattr(self, "_tx_model_repository"):
+            cached_before = set(self._tx_model_repository.all_models.filename_to_model)
+
         if not model:
             # Read model from file
             if not model_str:
@@ -821,8 +825,18 @@ class TextXMetaModel(DebugPrinter):
                 is_main_model=is_main_model,
             )
 
-        for p in self._model_processors:
-            p(model, self)
+        try:
+            for p in self._model_processors:
+                p(model, self)
+        except:  # noqa
+            if cached_before is not None:
+                # A model processor failed: models loaded by this (failed)
+                # attempt must not stay in the global repository.
+                repo = self._tx_model_repository
+                for fname, m in list(repo.all_models.filename_to_model.items()):
+                    if fname not in cached_before:
+                        repo.remove_model(m)
+            raise
 
         return model
 
